@@ -101,7 +101,7 @@ WORDS = ["(bases 1 to 20)", "22-OCT-2019", "ds-DNA", "DNA", "mRNA", "Direct Subm
          "2019-10-22T10:00:00Z", "NC_000913.3", "circular", "Homo sapiens", "", "", "a", "CDS", "gene", "misc_feature", "pUC19", "E. coli", "lacZ alpha", "1..9", "+", "-", ".", "0",
          "blake3", "v1_DCD_", "join(1..2,4..5)", "x y  z", " lead", "trail ", "UPPER lower"]
 TRICKY = ["<b>&amp;</b>", "say \"hi\"", "back\\slash", "tab\there", "line\nbreak", "cr\rhere", "\x01\x02\x1f", "\x7f",
-          "/slash/", "{\"k\":[1,null]}", "null", "\\u0041", "  ", "�", "﻿bom", "%3B;=,", "sep\u2028para\u2029end", "nul\x00inside"]
+          "/slash/", "{\"k\":[1,null]}", "null", "\\u0041", "  ", "�", "﻿bom", "%3B;=,", "sep\u2028para\u2029end", "nul\x00inside", "bs\x08ff\x0c", "\x08", "\x0c", "\x0b\x0e\x1b"]
 NONASCII = ["gène", "Ünal", "中文", "\U0001f9ec", "α-helix β", "naïve \U00010348", "퟿",
             "\U0010ffff", "\u0080߿ࠀ￿"]
 
@@ -512,7 +512,7 @@ def cases(seed, tier):
     yield ["rt", canon({})]
     # genome-sized values first (they land in the first shard; the genome-sized files are at the end)
     gunit = randword(r, "ACGT", 61)
-    for k in (GENOME_K[:2] if quick else GENOME_K):
+    for k in (GENOME_K[:1] if quick else GENOME_K):
         yield ["rt", canon(big_value(r, gunit, k, 6))]
     for x in collection_grid():
         yield ["rt", canon(x)]
@@ -585,6 +585,9 @@ def cases(seed, tier):
                 yield ["conv", "gff", esc_text(gff_file(r, seq=unit * k, nfeat=5)), "strict"]
     finally:
         MAXSPAN[0] = None
+    if quick:
+        # (the second genome-sized value of the quick tier goes to the last shard: balance)
+        yield ["rt", canon(big_value(r, gunit, GENOME_K[1], 6))]
     # the `key without =` attribute that gff.Parse rejects: a stream of its own (named skip), not a share of the wild files
     for i in range(5 if quick else 50):
         yield ["conv", "gff", esc_text(gff_file(r, wild="flag", nfeat=2))]
@@ -618,12 +621,11 @@ RULE = ("rt: the zero value; every combination of nil / empty / non-empty at the
         "CONTIG, comments, %-escapes, no ##FASTA) that the parser may reject (named skip). dec cases are outside the quantifier "
         "(correspondence only). non-trivial = the value has a feature or a non-empty string; distinct by case text")
 EXHAUSTIVE = {"quick": False, "thorough": False}
-TRUSTED_BASE = ["encoding/json's text layer = the Lean printer (Base/JVal.lean: Go's escapes \\\" \\\\ \\b \\f \\n \\r \\t \\u00XX \\u003c \\u003e "
-                "\\u0026 \\u2028 \\u2029, integers, compact layout) and reader (Base/JsonRead.lean): the pair is proved to round-trip "
-                "(Lemmas/JsonText.lean); that Go's Marshal writes the same bytes and its Unmarshal reads the same values is "
-                "corresponded on every case; UTF-8 and MarshalIndent's layout are not modelled",
-                "harness/cmd/extract-io/gen_c15.go also lists, for every struct reachable from poly.Sequence and every field / element / "
-                "key type, the json / text (un)marshaler interfaces it implements (theorem no_custom_codecs: none)",
+TRUSTED_BASE = ["encoding/json's text layer = the Lean printers (Base/JVal.lean: `print` = Marshal's compact text with Go >= 1.22's escapes "
+                "\\\" \\\\ \\b \\f \\n \\r \\t \\u00XX \\u003c \\u003e \\u0026 \\u2028 \\u2029, `printIndent` = MarshalIndent(v, \"\", \" \")) and "
+                "reader (Base/JsonRead.lean): proved to round-trip (Lemmas/JsonText.lean); that Go writes the same bytes and, on "
+                "those texts, reads the same values is corresponded on every case. UTF-8 encoding is below the model (strings are "
+                "code-point lists; the theorems also quantify over non-scalar values such as 0xD800 that have no Go counterpart)",
                 "harness/cmd/extract-io/gen_c15.go: the JSON member name of each field is observed from json.Marshal/Unmarshal of "
                 "the compiled types, kinds from reflect",
                 "canonical value syntax (ops_c15.go, reflect-driven) used to move poly.Sequence values between Go and Lean",
@@ -649,13 +651,15 @@ PARTIAL = ["third clause outside printable ASCII: convert_same_gbk / convert_sam
            "(and corresponded) on printable-ASCII values without integer overflow only. For values with other text the clause is "
            "proved for every writer that respects value equality (convert_same); that the two real writers do is checked by byte "
            "comparison of their outputs before and after the round trip on every case, not proved",
-           "the JSON text layer: proved for the Lean printer and reader (json_text_roundtrip: the reader reads back every value "
-           "the printer writes; text_roundtrip*: clause 1 as parse(text(write x)) = x). What stays trusted is that "
-           "encoding/json IS that printer and reader: json.Marshal's text equals the printer's text byte for byte (compared "
-           "on every case, `marshal-text`), json.Unmarshal / polyjson.Parse read the printer's text and Go's own compact and "
-           "indented texts like the reader (compared on every case); MarshalIndent's layout (polyjson.Write) is read by the "
-           "reader but has no printer of its own in Lean; UTF-8 encoding of code points is below the model (strings are code "
-           "point lists)"]
+           "the JSON text layer: proved for the Lean printers and reader (json_text_roundtrip / json_indent_roundtrip / "
+           "json_layout_roundtrip: the reader reads back every value written compactly, in MarshalIndent's layout, or under any "
+           "blank-only layout; text_roundtrip* / text_unmarshal (Marshal's text) and write_text_* (MarshalIndent's text): clause 1 as Parse(text(Marshal x)), Read(file(Write x)) and "
+           "Unmarshal(text(MarshalIndent x))). What stays trusted is that encoding/json IS those printers and that reader on the "
+           "texts they write: json.Marshal's bytes equal `print`'s text and the file polyjson.Write leaves equals `printIndent`'s "
+           "text, both compared byte for byte on every case (`marshal-text`, `write-text`); json.Unmarshal / polyjson.Parse read "
+           "those texts like the reader (compared on every case). Strings are code-point lists: the theorems also cover lists no "
+           "Go string holds (surrogates, values above 0x10FFFF); Go strings are the scalar-value lists; the UTF-8 encoding of "
+           "text into bytes is below the model"]
 TECHNIQUE = ("Lean 4 proof over a model of json.Marshal / json.Unmarshal / polyjson.Parse / AddFeature / GetSequence whose struct "
              "table (fields, JSON member names, kinds) is regenerated from the compiled types; decide on the table, structural "
              "induction over values and location trees; conversion clause instantiated for the C03 / C14 writer models through "
@@ -663,13 +667,15 @@ TECHNIQUE = ("Lean 4 proof over a model of json.Marshal / json.Unmarshal / polyj
 LEVEL_TEXT = ("Kernel-checked for all values (any strings, integers, list lengths, nesting depth): unmarshal_marshal (Unmarshal∘Marshal "
               "is the identity up to nil parent pointers, nil-ness of every collection included), parse_marshal (exact result of "
               "polyjson.Parse∘Marshal), roundtrip / roundtrip_exact / roundtrip_spec / unmarshal_equiv, the same at the level of JSON TEXT for the Lean printer and "
-              "reader (json_string_roundtrip, json_int_roundtrip, json_text_roundtrip: read(print v) = v for every JSON value; "
-              "text_roundtrip_exact / text_roundtrip / text_roundtrip_self / text_unmarshal: parse(text(write x)) = x), relinked_parent, relinked_any "
+              "reader (json_string_roundtrip, json_int_roundtrip, json_text_roundtrip, json_indent_roundtrip, json_layout_roundtrip: "
+              "read(print v) = v for every JSON value, compact, in MarshalIndent's layout and under any blank-only layout; "
+              "text_roundtrip_exact / text_roundtrip / text_roundtrip_self / text_unmarshal: Parse(text(Marshal x)) = x; write_text_roundtrip_exact / "
+              "_roundtrip / _self / _unmarshal: Read(file(Write x)) = x and Unmarshal(text(MarshalIndent x)) = x), relinked_parent, relinked_any "
               "(any report function of parent text and location, any text), relinked_reports / relinked (the GetSequence model, ASCII "
               "parent text), getSeq_nil_empty, convert_same (any writer respecting value equality) and its instances convert_same_gbk, "
               "convert_same_gff, convert_same_gbk_pipe, convert_same_gff_pipe for the models of genbank.Build (C03, every map iteration "
               "order) and gff.Build (C14) applied to the writers' views of the value; tags_nodup, fields_expected, only_parent_dropped, "
-              "plain_fields are decided on the table re-extracted on every run, and the round-trip lemmas are re-evaluated against it, "
+              "plain_fields, no_custom_codecs, codecs_cover_structs, field_types_listed are decided on the table re-extracted on every run, and the round-trip lemmas are re-evaluated against it, "
               "so a changed tag / dropped field / colliding name breaks a proof obligation. The model is tied to the code by comparing, "
               "per case, the real json.Marshal and MarshalIndent texts (parsed by a Lean JSON reader) with toJ, the real polyjson.Parse "
               "of the real and of the model-printed JSON with polyjsonParse, Write/Read through a file, GetSequence before and after, "
